@@ -220,6 +220,10 @@ func Performance(dpv *journal.Performance) float64 {
 	if v0 == v1 && inflow == 0 && outflow == 0 {
 		return 1
 	}
+	if v0+inflow == 0 {
+		// no capital at work (e.g. a short position that is covered): there is no return to speak of
+		return 1
+	}
 	return (v1 - outflow) / (v0 + inflow)
 }
 
